@@ -399,6 +399,25 @@ pub fn c12(out: &mut dyn Write, tier: &str, rng: &mut Rng, st: &mut Stats) {
         writeln!(out, "C12|cli|ch{}{}|{}|{}|{}|{}|{}", channel, flags, hex(&text), tcl, otext, ocl, class).unwrap();
         st.hit(&format!("cli.{}", class));
     }
+    // values of -f / -c that are no spelling of a truth value (empty, non-ASCII first character, wrong case, too long) next
+    // to the accepted ones, in every way of writing the option: refused with a usage error, never a panic
+    let values = ["", "\u{e9}", "\u{2713}", "\u{e4}rgerlich", "x", "TRUE", "tr", "2", "**", "t", "True", "0", "A", "*", "any", " true", "true ", "t\u{301}",
+        "tttttttttttttttttttttttttttttttttttttttttttttttttttttttttttttttttttttttttttttttt", "-", "--"];
+    for v in values {
+        for form in 0..4 {
+            let args: Vec<String> = match form {
+                0 => vec!["-e".into(), "a | b".into(), "-t".into(), "-f".into(), v.to_string()],
+                1 => vec!["-e".into(), "a | b".into(), "-t".into(), format!("--filter={}", v)],
+                2 => vec!["-e".into(), "a | b".into(), "-t".into(), "-c".into(), v.to_string()],
+                _ => vec!["-e".into(), "a | b".into(), "-t".into(), format!("--retain-choices={}", v)],
+            };
+            // a value that starts with a dash after a separate option name is read as another option
+            if (form == 0 || form == 2) && v.starts_with('-') { continue; }
+            let class = run_class(&bin, &args, &[], 10);
+            writeln!(out, "C12|optvalue|{}|{}|{}", form, hex(v.as_bytes()), class).unwrap();
+            st.hit(&format!("optvalue.{}", class));
+        }
+    }
 }
 
 /// run a binary; exit class: ok / err / panic / signal / timeout
